@@ -24,37 +24,37 @@ SPEC = {
         "IoFinalizer, Signer and Prover draw from OsRng inside the library: runs are reproducible in structure, not in signature/proof bytes",
     ],
     "tiers": {
-        "quick": {"shards": 9, "budget_s": 60, "extra": {}},
+        "quick": {"shards": 9, "budget_s": 52, "extra": {}},
         "thorough": {"shards": 15, "budget_s": 1300, "extra": {}},
     },
     "floors": {
         "quick": {
-            "evaluations": 250, "distinct_nontrivial": 200,
-            "roundtrips": 10000, "roundtrip_encodings_checked": 10000, "encoded_as_v1": 2000, "encoded_as_v2": 2000,
-            "v2_forced_by:tx-version-6": 1000, "v2_forced_by:orchard-anchor-absent": 10, "v2_forced_by:orchard-cv_net-absent": 10,
-            "v2_forced_by:orchard-cmx-absent": 10, "v2_forced_by:sapling-anchor-absent": 10,
-            "txid_compared_after_role": 10000, "pczt_txid_agrees": 10000,
-            "txid_after:updater": 800, "txid_after:io_finalizer": 250, "txid_after:signer": 400, "txid_after:prover": 80,
-            "txid_after:redactor": 3000, "txid_after:combiner": 150, "txid_after:spend_finalizer": 100,
-            "redactions_checked": 3000, "redactions_effective": 1500,
-            "combine_orders_and_groupings": 20000, "combine_union_agreed": 100, "combine_conflicts_refused_in_every_order": 200,
-            "combine_experiments_n2": 100, "combine_experiments_n3": 100, "combine_experiments_n4": 30,
-            "combine_idempotence_checked": 1000, "serde_route_conflicts": 40,
-            "conflict_cases:double-signature": 30, "conflict_cases:global.proprietary": 15,
-            "signed:transparent": 200, "signed:sapling": 100, "signed:orchard": 150, "signed:ironwood": 40,
-            "updates:global": 300, "updates:transparent": 200, "updates:sapling": 150, "updates:orchard": 150, "updates:ironwood": 40,
-            "pczts:deferred_builder": 15, "pczts:tx_v5": 100, "pczts:tx_v6": 60,
-            "pczts_with:transparent": 150, "pczts_with:sapling": 100, "pczts_with:orchard": 120, "pczts_with:ironwood": 30,
-            "extracted": 40, "extracted_with_real_proofs": 5, "handover_through_bytes": 200, "creator_new_probes": 7,
+            "evaluations": 90, "distinct_nontrivial": 90,
+            "roundtrips": 2000, "roundtrip_encodings_checked": 5000, "encoded_as_v1": 1200, "encoded_as_v2": 700,
+            "v2_forced_by:tx-version-6": 600, "v2_forced_by:orchard-anchor-absent": 10, "v2_forced_by:orchard-cv_net-absent": 10,
+            "v2_forced_by:orchard-cmx-absent": 10, "v2_forced_by:sapling-anchor-absent": 8,
+            "txid_compared_after_role": 2000, "pczt_txid_agrees": 2000,
+            "txid_after:updater": 300, "txid_after:io_finalizer": 80, "txid_after:signer": 150, "txid_after:prover": 35,
+            "txid_after:redactor": 1200, "txid_after:combiner": 70, "txid_after:spend_finalizer": 35,
+            "redactions_checked": 1200, "redactions_effective": 600,
+            "combine_orders_and_groupings": 4000, "combine_union_agreed": 45, "combine_conflicts_refused_in_every_order": 90,
+            "combine_experiments_n2": 70, "combine_experiments_n3": 50, "combine_experiments_n4": 12,
+            "combine_idempotence_checked": 250, "serde_route_conflicts": 25,
+            "conflict_cases:double-signature": 15, "conflict_cases:global.proprietary": 6,
+            "signed:transparent": 50, "signed:sapling": 60, "signed:orchard": 90, "signed:ironwood": 12,
+            "updates:global": 120, "updates:transparent": 90, "updates:sapling": 70, "updates:orchard": 70, "updates:ironwood": 15,
+            "pczts:deferred_builder": 6, "pczts:tx_v5": 45, "pczts:tx_v6": 20,
+            "pczts_with:transparent": 50, "pczts_with:sapling": 30, "pczts_with:orchard": 40, "pczts_with:ironwood": 10,
+            "extracted": 8, "extracted_with_real_proofs": 3, "handover_through_bytes": 90, "creator_new_probes": 7,
         },
         "thorough": {
-            "evaluations": 8000, "distinct_nontrivial": 4000,
-            "roundtrips": 300000, "txid_compared_after_role": 300000,
-            "redactions_checked": 150000, "combine_orders_and_groupings": 600000,
-            "combine_union_agreed": 3000, "combine_conflicts_refused_in_every_order": 6000,
-            "combine_experiments_n4": 1500, "serde_route_conflicts": 1500,
-            "signed:ironwood": 1200, "pczts:deferred_builder": 500, "pczts_with:ironwood": 1000,
-            "extracted": 1200, "extracted_with_real_proofs": 100, "creator_new_probes": 7,
+            "evaluations": 2500, "distinct_nontrivial": 2000,
+            "roundtrips": 60000, "txid_compared_after_role": 60000,
+            "redactions_checked": 40000, "combine_orders_and_groupings": 120000,
+            "combine_union_agreed": 1200, "combine_conflicts_refused_in_every_order": 2500,
+            "combine_experiments_n4": 400, "serde_route_conflicts": 600,
+            "signed:ironwood": 400, "pczts:deferred_builder": 150, "pczts_with:ironwood": 300,
+            "extracted": 250, "extracted_with_real_proofs": 40, "creator_new_probes": 7,
         },
     },
     "manifest": {
